@@ -23,9 +23,9 @@ import (
 	"github.com/gagliardetto/solana-go"
 	"github.com/ipfs/go-cid"
 	"github.com/rpcpool/yellowstone-faithful/blocktimeindex"
-	"github.com/rpcpool/yellowstone-faithful/bucketteer"
 	"github.com/rpcpool/yellowstone-faithful/compactindexsized"
 	"github.com/rpcpool/yellowstone-faithful/gsfa"
+	"github.com/rpcpool/yellowstone-faithful/gsfa/linkedlog"
 	"github.com/rpcpool/yellowstone-faithful/indexes"
 	"github.com/rpcpool/yellowstone-faithful/indexmeta"
 	"github.com/rpcpool/yellowstone-faithful/zzverif/vh"
@@ -78,12 +78,29 @@ type vc13Run struct {
 
 // record one truncated lookup. kind: file kind; complete/trunc: canonical answers ("v:<hex>", "notfound", "err").
 func (x *vc13Run) observe(kind string, cut int, size int, key string, complete, trunc string, rd *vc13Reader) {
-	x.rep.Case(fmt.Sprintf("%s/%d/%s", kind, cut, key), cut < size)
+	x.observeN(kind, cut, size, key, 1, complete, trunc, rd)
+}
+
+// observeN: lookup no. attempt (1 = the first one) of key on the SAME open reader over the truncated copy. The oracle is
+// the same for every attempt: the complete file's answer or an error, whatever was asked on that reader before.
+func (x *vc13Run) observeN(kind string, cut int, size int, key string, attempt int, complete, trunc string, rd *vc13Reader) {
+	ck := fmt.Sprintf("%s/%d/%s", kind, cut, key)
+	if attempt > 1 {
+		ck += "#again"
+		x.rep.Count("repeated-lookups:" + kind)
+	}
+	x.rep.Case(ck, cut < size)
 	x.rep.Count("lookups:" + kind)
 	if trunc != "err" && trunc != complete {
-		x.rep.Fail("truncated-file-answers-differently:"+kind,
-			fmt.Sprintf("%s cut at %d of %d bytes, key %s: complete file answers %.60s, truncated copy answers %.60s (must be the same or an error)", kind, cut, size, key, complete, trunc),
-			map[string]interface{}{"kind": kind, "cut": cut, "size": size, "key": key})
+		if attempt > 1 {
+			x.rep.Fail("truncated-file-answers-differently-on-repeated-lookup:"+kind,
+				fmt.Sprintf("%s cut at %d of %d bytes, key %s, lookup no. %d of this key on the same open reader: complete file answers %.60s, truncated copy answers %.60s (must be the same or an error, whatever was looked up before)", kind, cut, size, key, attempt, complete, trunc),
+				map[string]interface{}{"kind": kind, "cut": cut, "size": size, "key": key, "attempt": attempt})
+		} else {
+			x.rep.Fail("truncated-file-answers-differently:"+kind,
+				fmt.Sprintf("%s cut at %d of %d bytes, key %s: complete file answers %.60s, truncated copy answers %.60s (must be the same or an error)", kind, cut, size, key, complete, trunc),
+				map[string]interface{}{"kind": kind, "cut": cut, "size": size, "key": key})
+		}
 	}
 	if trunc == "err" {
 		x.rep.Count("outcome:error")
@@ -100,11 +117,21 @@ func (x *vc13Run) observe(kind string, cut int, size int, key string, complete, 
 	}
 }
 
+// vc13Attempts: how often a key is looked up on one open reader over a truncated copy (at the cuts chosen by
+// repeatAt; once at the others).
+const vc13Attempts = 3
+
+// repeatAt: the cuts at which every key is looked up vc13Attempts times: all directed / boundary cuts (and all cuts
+// of a file swept exhaustively), and every fourth cut of the random sample.
+func vc13RepeatAt(cut int, directed map[int]bool) bool { return directed[cut] || cut%4 == 0 }
+
 // directed: for every read that the lookup of key i performs on the COMPLETE file (recorded), the file is cut inside
-// that very read (at its first byte, after its first byte, before its last byte) and key i is looked up again on the
-// truncated copy, opened afresh. These are the cuts at which a reader that tolerates a short read would answer from
-// partial bytes; a random sample of a large file hardly ever lands on them.
-func (x *vc13Run) directed(kind string, data []byte, keyNames []string, answer func(r *vc13Reader, i int) (ans string, opened bool)) {
+// that very read (at its first byte, after its first byte, before its last byte) and key i is looked up on the
+// truncated copy, opened afresh - vc13Attempts times on that reader. These are the cuts at which a reader that
+// tolerates a short read would answer from partial bytes; a random sample of a large file hardly ever lands on them.
+// open: opens the file over r and returns the lookup of key i (nil: the open failed) and whether the recorded reads
+// may go to the Coq checker.
+func (x *vc13Run) directed(kind string, data []byte, keyNames []string, open func(r *vc13Reader) (look func(i int) string, traceOK bool)) {
 	maxKeys := 40
 	if vh.Thorough() {
 		maxKeys = 400
@@ -114,7 +141,16 @@ func (x *vc13Run) directed(kind string, data []byte, keyNames []string, answer f
 			continue // the first keys and the last two (the absent ones)
 		}
 		fr := &vc13Reader{data: data, trace: true}
-		complete, _ := answer(fr, i)
+		full, _ := open(fr)
+		if full == nil {
+			if !x.noted["directed-open:"+kind] {
+				x.noted["directed-open:"+kind] = true
+				x.rep.Note("%s: the COMPLETE file does not open on this tree; directed cuts skipped", kind)
+				x.rep.Count("seed-skipped:directed:" + kind)
+			}
+			return
+		}
+		complete := full(i)
 		seen := map[int]bool{}
 		for _, sp := range fr.spans {
 			lo, hi := int(sp[0]), int(sp[0]+sp[1])
@@ -124,12 +160,22 @@ func (x *vc13Run) directed(kind string, data []byte, keyNames []string, answer f
 				}
 				seen[cut] = true
 				r := &vc13Reader{data: data[:cut]}
-				got, opened := answer(r, i)
-				rr := r
-				if !opened {
-					rr = nil
+				look, traceOK := open(r)
+				for a := 1; a <= vc13Attempts; a++ {
+					r.reset()
+					got := "err"
+					if look != nil {
+						got = look(i)
+					}
+					rr := r
+					if look == nil || !traceOK {
+						rr = nil
+					}
+					x.observeN(kind, cut, len(data), keyNames[i], a, complete, got, rr)
+					if look == nil {
+						break
+					}
 				}
-				x.observe(kind, cut, len(data), keyNames[i], complete, got, rr)
 				x.rep.Count("directed-cuts:" + kind)
 			}
 		}
@@ -138,16 +184,25 @@ func (x *vc13Run) directed(kind string, data []byte, keyNames []string, answer f
 
 // cuts: exhaustive for small files, otherwise boundaries +-2 and a random sample.
 func (x *vc13Run) cuts(size int, boundaries []int, sample int) []int {
+	out, _ := x.cutsTagged(size, boundaries, sample)
+	return out
+}
+
+// cutsTagged: the same cuts, and which of them are directed (exhaustive sweep: all; otherwise the boundary cuts).
+func (x *vc13Run) cutsTagged(size int, boundaries []int, sample int) ([]int, map[int]bool) {
 	set := map[int]bool{}
+	directed := map[int]bool{}
 	if size <= 6000 && (vh.Thorough() || size <= 1500) {
 		for i := 0; i <= size; i++ {
 			set[i] = true
+			directed[i] = true
 		}
 	} else {
 		for _, b := range append(boundaries, 0, size) {
 			for d := -2; d <= 2; d++ {
 				if b+d >= 0 && b+d <= size {
 					set[b+d] = true
+					directed[b+d] = true
 				}
 			}
 		}
@@ -160,7 +215,7 @@ func (x *vc13Run) cuts(size int, boundaries []int, sample int) []int {
 		out = append(out, k)
 	}
 	sort.Ints(out)
-	return out
+	return out, directed
 }
 
 func vc13Err(err error) string {
@@ -175,7 +230,7 @@ func vc13Err(err error) string {
 
 func TestVerif_C13(t *testing.T) {
 	rep := vh.NewReport("C13", "truncation",
-		"one generated epoch with address index; for each file kind (cid-to-offset-and-size, slot-to-cid, sig-to-cid, gsfa pubkey index — each opened over a ReaderAt both with prefetch off and as the server opens a remote index, Prefetch(true); a generated 3-bucket index larger than the prefetch window; sig-exists, slot-to-blocktime, gsfa linked log / manifest, CAR) cut points (exhaustive for files <= 1.5 KB quick / 6 KB thorough, else structure boundaries +-2 and a random sample) x every stored key (+ absent keys); the gsfa manifest at EVERY cut offset (gsfa.NewGsfaReader, NewManifest+ReadAll: version, metadata, tuples, file bytes untouched); a case = one lookup / open on a truncated copy; non-trivial = cut strictly inside the file")
+		"one generated epoch with address index; for each file kind (cid-to-offset-and-size, slot-to-cid, sig-to-cid, gsfa pubkey index — each opened over a ReaderAt both with prefetch off and as the server opens a remote index, Prefetch(true); a generated 3-bucket index larger than the prefetch window; sig-exists, slot-to-blocktime, gsfa linked log / manifest, CAR) cut points (exhaustive for files <= 1.5 KB quick / 6 KB thorough, else structure boundaries +-2 and a random sample) x every stored key (+ absent keys); the gsfa manifest at EVERY cut offset (gsfa.NewGsfaReader, NewManifest+ReadAll: version, metadata, tuples, file bytes untouched); at every directed / boundary cut (and a quarter of the sampled ones) every key is looked up 3 times on the same open reader (sig-exists also through bucketteer.Open = mmap and an *os.File on a copy truncated on disk, plus a generated file with several signatures per prefix; gsfa: one reader per truncated directory; CAR: one ReaderAt / one seekable data reader per truncated copy); compact-index kinds and sig-exists: 8 lookups of keys with the same first read (one bucket / prefix) issued at the same time on one open reader whose reads are held until all of them have issued theirs, several rounds per cut, cuts inside the bucket header / count and inside entries; a case = one lookup / open on a truncated copy; non-trivial = cut strictly inside the file")
 	cases := vh.NewCases("cases_c13", []string{"YF.C13_Trunc"}, "case", "check")
 	seed := vh.Seed()
 	sp := vfxDefaultSpec("c13", 2, seed)
@@ -219,7 +274,7 @@ func TestVerif_C13(t *testing.T) {
 		for _, k := range keys {
 			names = append(names, k.String())
 		}
-		x.sweepCI("cid-to-offset-and-size", data, names, nil, sample, func(r *vc13Reader, prefetch bool) func(i int) string {
+		x.sweepCI("cid-to-offset-and-size", data, names, nil, sample, func(r indexes.ReaderAtCloser, prefetch bool) func(i int) string {
 			ix := func() (ix *indexes.CidToOffsetAndSize_Reader) {
 				defer func() {
 					if recover() != nil {
@@ -260,7 +315,7 @@ func TestVerif_C13(t *testing.T) {
 		for _, k := range keys {
 			names = append(names, fmt.Sprint(k))
 		}
-		x.sweepCI("slot-to-cid", data, names, nil, sample, func(r *vc13Reader, prefetch bool) func(i int) string {
+		x.sweepCI("slot-to-cid", data, names, nil, sample, func(r indexes.ReaderAtCloser, prefetch bool) func(i int) string {
 			ix := func() (ix *indexes.SlotToCid_Reader) {
 				defer func() {
 					if recover() != nil {
@@ -305,7 +360,7 @@ func TestVerif_C13(t *testing.T) {
 		for _, k := range keys {
 			names = append(names, k.String()[:12])
 		}
-		x.sweepCI("sig-to-cid", data, names, nil, sample, func(r *vc13Reader, prefetch bool) func(i int) string {
+		x.sweepCI("sig-to-cid", data, names, nil, sample, func(r indexes.ReaderAtCloser, prefetch bool) func(i int) string {
 			ix := func() (ix *indexes.SigToCid_Reader) {
 				defer func() {
 					if recover() != nil {
@@ -357,7 +412,7 @@ func TestVerif_C13(t *testing.T) {
 		for _, k := range keys {
 			names = append(names, k.String()[:12])
 		}
-		x.sweepCI("pubkey-to-offset-and-size", data, names, nil, sample, func(r *vc13Reader, prefetch bool) func(i int) string {
+		x.sweepCI("pubkey-to-offset-and-size", data, names, nil, sample, func(r indexes.ReaderAtCloser, prefetch bool) func(i int) string {
 			ix := func() (ix *indexes.PubkeyToOffsetAndSize_Reader) {
 				defer func() {
 					if recover() != nil {
@@ -389,87 +444,41 @@ func TestVerif_C13(t *testing.T) {
 	}
 	// a generated index with several buckets, each larger than the prefetch window
 	x.bigIndex(vfxCidFromHex(tr.Objects[0].Cid), sample)
-	// ---------------- sig-exists
+	// ---------------- sig-exists: the generated epoch's file and a small generated one with several signatures per
+	// prefix (c13c_test.go): over a ReaderAt, through bucketteer.Open (mmap) and an *os.File, every key several times on
+	// the same open reader, and concurrently
 	{
 		data := rd(tr.Paths.SignatureExists)
 		keys := append(append([]solana.Signature(nil), sigs...), absentSig)
-		open := func(r *vc13Reader) (ix *bucketteer.Reader) {
-			defer func() { recover() }()
-			ix, err := bucketteer.NewReader(r)
+		x.sigExists("sig-exists", data, keys, sample)
+		x.sigExistsSmall(sample)
+	}
+	// ---------------- slot-to-blocktime (exact-size read as in NewEpochFromConfig)
+	{
+		data := rd(tr.Paths.SlotToBlocktime)
+		// open: the exact-size read and the parse, once per truncated copy; every slot is then asked vc13Attempts times
+		// on the index it yields
+		open := func(r *vc13Reader) (ix *blocktimeindex.Index) {
+			defer func() {
+				if recover() != nil {
+					ix = nil
+				}
+			}()
+			buf, err := ReadAllFromReaderAt(r, uint64(blocktimeindex.DefaultIndexByteSize))
+			if err != nil {
+				return nil
+			}
+			ix, err = blocktimeindex.FromBytes(buf)
 			if err != nil {
 				return nil
 			}
 			return ix
 		}
-		look := func(ix *bucketteer.Reader, k solana.Signature) string {
+		look := func(ix *blocktimeindex.Index, slot uint64) string {
 			if ix == nil {
 				return "err"
 			}
 			return safe(func() string {
-				has, err := ix.Has(k)
-				if err != nil {
-					return "err"
-				}
-				return fmt.Sprintf("v:%v", has)
-			})
-		}
-		// structure boundaries: header size field, header end, the first bucket records
-		bounds := []int{4, 12, 20}
-		hdrEnd := 0
-		if len(data) > 4 {
-			hdrEnd = 4 + int(uint32(data[0])|uint32(data[1])<<8|uint32(data[2])<<16|uint32(data[3])<<24)
-			bounds = append(bounds, hdrEnd)
-			for off, n := hdrEnd, 0; off < len(data) && n < 30; off, n = off+12, n+1 {
-				bounds = append(bounds, off)
-			}
-		}
-		complete := map[string]string{}
-		full := open(&vc13Reader{data: data})
-		for _, k := range keys {
-			complete[k.String()] = look(full, k)
-		}
-		for _, cut := range x.cuts(len(data), bounds, sample/2) {
-			if cut < hdrEnd && cut > 64 && x.rng.Intn(4) != 0 {
-				continue // the 655 KB header: every cut inside it fails at open; keep a quarter of the sample
-			}
-			r := &vc13Reader{data: data[:cut]}
-			ix := open(r)
-			for ki, k := range keys {
-				if ki > 12 && cut < hdrEnd {
-					break
-				}
-				r.reset()
-				got := look(ix, k)
-				rr := r
-				if ix == nil {
-					rr = nil
-				}
-				x.observe("sig-exists", cut, len(data), k.String()[:12], complete[k.String()], got, rr)
-			}
-		}
-		var names []string
-		for _, k := range keys {
-			names = append(names, k.String()[:12])
-		}
-		x.directed("sig-exists", data, names, func(r *vc13Reader, i int) (string, bool) {
-			ix := open(r)
-			return look(ix, keys[i]), ix != nil
-		})
-		rep.Count(fmt.Sprintf("file:sig-exists bytes=%d header=%d keys=%d", len(data), hdrEnd, len(keys)))
-	}
-	// ---------------- slot-to-blocktime (exact-size read as in NewEpochFromConfig)
-	{
-		data := rd(tr.Paths.SlotToBlocktime)
-		look := func(r *vc13Reader, slot uint64) string {
-			return safe(func() string {
-				buf, err := ReadAllFromReaderAt(r, uint64(blocktimeindex.DefaultIndexByteSize))
-				if err != nil {
-					return "err"
-				}
-				ix, err := blocktimeindex.FromBytes(buf)
-				if err != nil {
-					return "err"
-				}
 				v, err := ix.Get(slot)
 				if err != nil {
 					return "err"
@@ -482,9 +491,15 @@ func TestVerif_C13(t *testing.T) {
 			bounds = append(bounds, 46+4*int(b.Slot-tr.base()), 46+4*int(b.Slot-tr.base())+4)
 		}
 		for _, cut := range x.cuts(len(data), append(bounds, 14, 22, 30, 38, 46), sample/3) {
+			r := &vc13Reader{data: data[:cut]}
+			ix := open(r)
 			for _, b := range tr.Blocks {
-				r := &vc13Reader{data: data[:cut]}
-				x.observe("slot-to-blocktime", cut, len(data), fmt.Sprint(b.Slot), fmt.Sprintf("v:%d", b.Blocktime), look(r, b.Slot), r)
+				for a := 1; a <= vc13Attempts; a++ {
+					x.observeN("slot-to-blocktime", cut, len(data), fmt.Sprint(b.Slot), a, fmt.Sprintf("v:%d", b.Blocktime), look(ix, b.Slot), r)
+					if ix == nil {
+						break
+					}
+				}
 			}
 		}
 		rep.Count(fmt.Sprintf("file:slot-to-blocktime bytes=%d", len(data)))
@@ -498,33 +513,41 @@ func TestVerif_C13(t *testing.T) {
 		}
 		cuts := x.cuts(len(data), bounds, sample)
 		for _, cut := range cuts {
+			r := &vc13Reader{data: data[:cut]} // one reader per truncated copy, for all objects
+			dr := bytes.NewReader(data[:cut])
 			for oi, o := range tr.Objects {
 				if len(cuts) > 400 && (oi+cut)%4 != 0 {
 					continue
 				}
 				c := vfxCidFromHex(o.Cid)
 				want := "v:" + vh.Hex(data[o.Offset+o.SecLen-vc13DataLen(data, o):o.Offset+o.SecLen])
-				r := &vc13Reader{data: data[:cut]}
-				got := safe(func() string {
-					b, err := readNodeFromReaderAtWithOffsetAndSize(r, &c, o.Offset, o.SecLen)
-					if err != nil {
-						return "err"
-					}
-					return "v:" + vh.Hex(b)
-				})
-				x.observe("car-readerat", cut, len(data), o.Cid[:16], want, got, r)
-				got2 := safe(func() string {
-					var src []byte
-					if int(o.Offset) < cut {
-						src = data[o.Offset:cut]
-					}
-					b, err := readNodeWithKnownSize(bufio.NewReader(bytes.NewReader(src)), &c, o.SecLen)
-					if err != nil {
-						return "err"
-					}
-					return "v:" + vh.Hex(b)
-				})
-				x.observe("car-local", cut, len(data), o.Cid[:16], want, got2, nil)
+				// the remote path: the ReaderAt over the truncated CAR, asked vc13Attempts times
+				for a := 1; a <= vc13Attempts; a++ {
+					r.reset()
+					got := safe(func() string {
+						b, err := readNodeFromReaderAtWithOffsetAndSize(r, &c, o.Offset, o.SecLen)
+						if err != nil {
+							return "err"
+						}
+						return "v:" + vh.Hex(b)
+					})
+					x.observeN("car-readerat", cut, len(data), o.Cid[:16], a, want, got, r)
+				}
+				// the local path (Epoch.GetNodeByOffsetAndSize): seek the one data reader of the CAR to the offset, wrap
+				// it in a fresh bufio.Reader, read the section - vc13Attempts times on the same data reader
+				for a := 1; a <= vc13Attempts; a++ {
+					got2 := safe(func() string {
+						if _, err := dr.Seek(int64(o.Offset), io.SeekStart); err != nil {
+							return "err"
+						}
+						b, err := readNodeWithKnownSize(bufio.NewReader(dr), &c, o.SecLen)
+						if err != nil {
+							return "err"
+						}
+						return "v:" + vh.Hex(b)
+					})
+					x.observeN("car-local", cut, len(data), o.Cid[:16], a, want, got2, nil)
+				}
 			}
 		}
 		rep.Count(fmt.Sprintf("file:car bytes=%d objects=%d", len(data), len(tr.Objects)))
@@ -547,6 +570,13 @@ func TestVerif_C13(t *testing.T) {
 		if len(keys) > 14 {
 			keys = keys[:14]
 		}
+		gsfaView := func(locs []linkedlog.OffsetAndSizeAndSlot) string {
+			var sb strings.Builder
+			for _, l := range locs {
+				fmt.Fprintf(&sb, "%d/%d/%d;", l.Offset, l.Size, l.Slot)
+			}
+			return "v:" + sb.String()
+		}
 		look := func(dir string, k solana.PublicKey) string {
 			return safe(func() string {
 				g, err := gsfa.NewGsfaReader(dir)
@@ -558,11 +588,7 @@ func TestVerif_C13(t *testing.T) {
 				if err != nil {
 					return vc13Err(err)
 				}
-				var sb strings.Builder
-				for _, l := range locs {
-					fmt.Fprintf(&sb, "%d/%d/%d;", l.Offset, l.Size, l.Slot)
-				}
-				return "v:" + sb.String()
+				return gsfaView(locs)
 			})
 		}
 		complete := map[string]string{}
@@ -593,6 +619,8 @@ func TestVerif_C13(t *testing.T) {
 				for _, k := range keys {
 					x.observe("gsfa-"+victim, cut, len(full), k.String()[:10], complete[k.String()], look(d, k), nil)
 				}
+				// and on ONE reader opened on the directory: every key vc13Attempts more times
+				x.gsfaRepeated("gsfa-"+victim, d, cut, len(full), keys, complete, 1000, gsfaView)
 			}
 			rep.Count(fmt.Sprintf("file:gsfa-%s bytes=%d", victim, len(full)))
 		}
@@ -635,6 +663,9 @@ func TestVerif_C13(t *testing.T) {
 		if err := w.Close(); err != nil {
 			t.Fatalf("setup failed: close: %v", err)
 		}
+		multiView := func(locs []linkedlog.OffsetAndSizeAndSlot) string {
+			return fmt.Sprintf("v:%d entries, first %v", len(locs), locs[:1])
+		}
 		look := func(dir string, k solana.PublicKey) string {
 			return safe(func() string {
 				g, err := gsfa.NewGsfaReader(dir)
@@ -646,7 +677,7 @@ func TestVerif_C13(t *testing.T) {
 				if err != nil {
 					return vc13Err(err)
 				}
-				return fmt.Sprintf("v:%d entries, first %v", len(locs), locs[:1])
+				return multiView(locs)
 			})
 		}
 		complete := map[string]string{}
@@ -678,6 +709,9 @@ func TestVerif_C13(t *testing.T) {
 			}
 			for _, k := range keys {
 				x.observe("gsfa-linked-log-multirecord", cut, len(full), k.String()[:10], complete[k.String()], look(d, k), nil)
+			}
+			if cut%3 == 0 || cut > len(full)-40 {
+				x.gsfaRepeated("gsfa-linked-log-multirecord", d, cut, len(full), keys, complete, 1000000, multiView)
 			}
 		}
 		rep.Count(fmt.Sprintf("file:gsfa-linked-log-multirecord bytes=%d", len(full)))
